@@ -18,6 +18,20 @@ Theorem done_need_named : forall (O : TimeOps) (P : prog O) me w f t,
   eval_need P me w (NDoneAux (AuxNamed t) f) = existsb (Nat.eqb t) (fr_auxes (getf P me f)) && done (gett w t).
 Proof. exact done_need_named. Qed.
 Print Assumptions done_need_named.
+(* "its transitions before the main framer's": in one run of a framer the plain auxiliaries of every active
+   frame make their transitions first; only then are the frames' own clauses evaluated, on the resulting world *)
+Theorem aux_transitions_before_main_clauses : forall (O : TimeOps) (P : prog O) sub t w, crashed w = None ->
+  framer_segue P sub t w =
+  let w0 := emit w (ESegue t) in
+  let s := gett w0 t in
+  let w1 := sett w0 t (ts_set_clock s (fstamp s) (tsub O (stamp w0) (fstamp s)) (recurred s + 1)%Z) in
+  let acts := actives (gett w1 t) in
+  let w2 := fold_left (fun w f => fold_left (fun w aux => guard w (o_segue sub aux)) (fr_auxes (getf P t f)) w)
+                      acts w1 in
+  fst (segue_frames P sub t acts w2).
+Proof. exact segue_auxes_first. Qed.
+Print Assumptions aux_transitions_before_main_clauses.
+
 Theorem done_marks_complete : forall (O : TimeOps) (P : prog O) sub me ts w t,
   crashed w = None -> In t ts -> t < length (tss w) ->
   done (gett (run_act P sub me (ADone ts) w) t) = true.
